@@ -39,6 +39,10 @@ EXC_KINDS = ['OSError', 'SimError', 'SimAbort', 'KeyboardInterrupt', 'MemoryErro
              'KeyError', 'EmitterError', 'ConstructorError', 'RepresenterError', 'AssertionError', 'ImportError',
              'RecursionError', 'SystemExit']
 
+# a plain function that raises StopIteration is not touched by PEP 479: from a representer (never called inside a
+# generator frame of the library) it must pass through like any other exception
+EXC_KINDS_REPRESENTER = EXC_KINDS + ['StopIteration']
+
 DUMP_APIS = ['dump', 'dump_all', 'safe_dump', 'serialize_all', 'emit']
 LOAD_APIS = ['load', 'load_all', 'compose', 'compose_all', 'parse', 'scan']
 DUMPERS = ['SafeDumper', 'Dumper', 'CSafeDumper', 'CDumper', 'BaseDumper']
@@ -78,7 +82,7 @@ def make_exc(kind, tag):
     return {'KeyboardInterrupt': KeyboardInterrupt, 'MemoryError': MemoryError, 'IndexError': IndexError,
             'TypeError': TypeError, 'AttributeError': AttributeError, 'ValueError': ValueError, 'KeyError': KeyError,
             'AssertionError': AssertionError, 'ImportError': ImportError, 'RecursionError': RecursionError,
-            'SystemExit': SystemExit}[kind](tag)
+            'SystemExit': SystemExit, 'StopIteration': StopIteration}[kind](tag)
 
 
 def plan(tier):
@@ -145,6 +149,11 @@ def generate(seed, tier):
             case['values'] = [values.Gen(rv, depth=2).value(0)]
         if dumper in ('BaseDumper',) and api in ('dump', 'dump_all'):
             api = 'serialize_all'
+        big_py = (not big) and (not dumper.startswith('C')) and r.random() < 0.04
+        if big_py:
+            # several KiB of encoded output through the pure-Python emitter: thousands of write invocations, sampled
+            case['values'][0] = ['list', [case['values'][0]] + [['str', 'filler %d %s' % (i, 'y' * (i % 40))] for i in range(rv.randint(350, 600))], 9998]
+            case['point_cap'] = 48
         if big and dumper.startswith('C'):
             # LibYAML flushes in 16 KiB blocks: a large value gives several write invocations
             case['values'][0] = ['list', [case['values'][0]] + [['str', 'filler %d %s' % (i, 'x' * (i % 50))]
@@ -153,7 +162,7 @@ def generate(seed, tier):
         case['values'] = [values.hash_order_free(v, opts.get('sort_keys', True)) for v in case['values']]
         case.update(api=api, dumper=dumper, opts=opts,
                     stream={'kind': r.choice(['text', 'binary', 'text', 'binary', 'none']), 'flush': r.random() < 0.7},
-                    encoding=r.choice([None, None, 'utf-8', 'utf-16-le', 'utf-16-be']),
+                    encoding=r.choice([None, None, 'utf-8', 'utf-16-le', 'utf-16-be']) if not case.get('point_cap') else r.choice(['utf-8', 'utf-8', 'utf-16-le']),
                     gen_docs=r.random() < 0.5)
         if api in ('dump', 'safe_dump'):
             case['values'] = case['values'][:1]
@@ -407,15 +416,17 @@ def enumerate_points(case, ref, seed_salt):
     pts += [('cb', i) for i in range(ref['n_cb'])]
     pts += [('it', i) for i in range(ref['n_it'])]
     sampled = False
-    if len(pts) > POINT_CAP:
+    cap = case.get('point_cap') or POINT_CAP
+    if len(pts) > cap:
         import random
         rr = random.Random(kernel.H(seed_salt, 'points'))
-        keep = set(pts[:150] + pts[-150:])
-        if case['side'] == 'dump':
+        edge = min(150, cap // 4)
+        keep = set(pts[:edge] + pts[-edge:])
+        if case['side'] == 'dump' and cap >= POINT_CAP:
             keep.update(('w', i) for i, (kind, _) in enumerate(ref['wlog']) if kind == 'flush')
             keep.update(('w', i - 1) for i, (kind, _) in enumerate(ref['wlog']) if kind == 'flush' and i)
         rest = [p for p in pts if p not in keep]
-        keep.update(rr.sample(rest, max(0, min(len(rest), POINT_CAP - len(keep)))))
+        keep.update(rr.sample(rest, max(0, min(len(rest), cap - len(keep)))))
         pts = [p for p in pts if p in keep]
         sampled = True
     return pts, sampled
@@ -471,6 +482,7 @@ def execute(case):
 
     def one_fault(point, kind, injected):
         itype, iargs = type(injected), injected.args
+        icause, isuppress = injected.__cause__, injected.__suppress_context__
         istate = dict(vars(injected)) if hasattr(injected, '__dict__') else {}
         # every other stream fault point is sticky: the stream keeps failing after the injected call
         sticky = point[0] in ('r', 'w') and kernel.H(case['salt'], 'sticky', point[0], point[1]) % 2 == 1
@@ -504,7 +516,7 @@ def execute(case):
         if set(state) != set(istate) or any(state[k] is not istate[k] and state[k] != istate[k] for k in state):
             changed = sorted(k for k in set(state) | set(istate) if k not in state or k not in istate or (state[k] is not istate[k] and state[k] != istate[k]))
             return {'class': 'exception-state-changed', 'detail': dict(where, attributes=changed)}
-        if exc.__cause__ is not None or getattr(exc, '__notes__', None):
+        if exc.__cause__ is not icause or exc.__suppress_context__ is not isuppress or getattr(exc, '__notes__', None):
             return {'class': 'exception-decorated', 'detail': dict(where, cause=repr(exc.__cause__), notes=getattr(exc, '__notes__', None))}
         if case['side'] == 'dump':
             wr = res['written']
@@ -523,8 +535,12 @@ def execute(case):
         return None
 
     for n, point in enumerate(pts):
-        kind = EXC_KINDS[kernel.H(case['salt'], point[0], point[1]) % len(EXC_KINDS)]
+        kinds = EXC_KINDS_REPRESENTER if (point[0] == 'cb' and case['side'] == 'dump') else EXC_KINDS
+        kind = kinds[kernel.H(case['salt'], point[0], point[1]) % len(kinds)]
         injected = make_exc(kind, '%s#%d' % point)
+        if kernel.H(case['salt'], 'cause', point[0], point[1]) % 3 == 0:
+            # what `raise StreamError(...) from os_error` in the caller's stream produces
+            injected.__cause__ = OSError(errno.EIO, 'root cause of %s#%d' % point)
         v = one_fault(point, kind, injected)
         if v is None:
             v = check_follow_up(list(point), kind)
